@@ -51,8 +51,10 @@ Definition step_spec (c : cfgT) (w : wobs) (v : sview) : bool :=
       let blocked := existsb (in_mount_dirs c) (users_of um (l_name x)) || overlain_by_mount c tab x in
       negb blocked
       || negb (existsb (fun t => at_or_under (build_path c x) t) (umount_targets (v_log v)))
-      || (* a parent freed by the unmount of its child in the same run may be unmounted *)
-         negb (existsb (in_mount_dirs c) (users_of um (l_name x)))) m
+      || (* a parent freed by the unmount of its child in the same run may be unmounted: it has
+            no user in its mount directories and no overlay sits on it any more at the end *)
+         (negb (existsb (in_mount_dirs c) (users_of um (l_name x)))
+          && negb (overlain_by_mount c (ks_tab (wo_ks (v_after v))) x))) m
   | _ => true
   end.
 
